@@ -275,6 +275,15 @@ namespace rcg { bool run(const std::string& gen, const std::function<bool(const 
 namespace vh {
 
 // A driver implements these two.
+// One really existing buffer of 2^32 + 64 KiB bytes (address space only; pages are touched on demand), so that
+// buffer sizes beyond INT_MAX and UINT32_MAX can be passed truthfully.  nullptr if the mapping is refused.
+static const size_t kHugeSize = ((size_t)1 << 32) + 65536;
+static inline uint8_t* huge_buffer() {
+  static uint8_t* p = [] { void* m = mmap(nullptr, kHugeSize, PROT_READ | PROT_WRITE, MAP_PRIVATE | MAP_ANONYMOUS | MAP_NORESERVE, -1, 0); return m == MAP_FAILED ? (uint8_t*)nullptr : (uint8_t*)m; }();
+  return p;
+}
+static const size_t kHugeClaims[] = {0x7fffffffull, 0x80000000ull, 0x80000003ull, 0xffffffffull, 0x100000000ull, 0x100000002ull, 0x100000009ull};
+
 struct Driver {
   const char* name;
   // run every campaign selected by ctx.campaign_filter ("" = all of the tier) for ctx.prop
